@@ -54,6 +54,7 @@ inductive Exc
   | assertion     -- a failed `assert` of Pony
   | deadlock      -- acquire() of a lock this session already holds (blocks for ever in reality)
   | unlocked      -- RuntimeError: release unlocked lock
+  | attrError     -- AttributeError: 'SQLitePool' object has no attribute 'pid'
   deriving DecidableEq, Repr, Inhabited
 
 /-- the fields of `SessionCache` the protocol reads and writes -/
@@ -71,8 +72,8 @@ structure St where
   pre : Bool               -- provider.pre_transaction_lock.locked()
   bad : Bool               -- sticky: a self-deadlock, a release of an unheld lock or a failed assertion happened
   poolCon : Option Nat     -- pool.con (the pool is thread-local)
-  poolPid : Bool           -- pool.pid is not None (the process never forks in the model)
-  forked : List Nat        -- Pool.forked_connections (class attribute; never closed)
+  poolPid : Bool           -- the attribute pool.pid exists (SQLitePool.__init__ does not create it; Pool.connect
+                           -- assigns it after the first successful _connect; the process never forks in the model)
   nextCon : Nat            -- connections opened so far
   closed : List Nat        -- connection ids on which close() was called, with multiplicity
   fk : Bool                -- PRAGMA foreign_keys of pool.con
@@ -179,11 +180,9 @@ def poolConnectNew (cf : Cfg) : M Unit := do
 /-- `Pool.connect` -/
 def poolConnect (cf : Cfg) : M (Nat × Bool) := do
   let s ← getS
-  -- if pool.con is not None and pool.pid != pid: forked_connections.append(...); pool.con = pool.pid = None
-  match s.poolCon with
-  | some k => if !s.poolPid then modS (fun s => { s with forked := k :: s.forked, poolCon := none, poolPid := false })
-  | none => pure ()
-  let s ← getS
+  -- `if pool.con is not None and pool.pid != pid:` -- without a fork the pids are equal, but reading `pool.pid`
+  -- raises AttributeError when no `_connect` of this thread has completed yet
+  if s.poolCon.isSome && !s.poolPid then raise .attrError
   match s.poolCon with
   | none =>
       poolConnectNew cf
@@ -492,7 +491,7 @@ def dbSession (cf : Cfg) (prog : List (Op × Bool)) (bodyRaises : Bool) : M Unit
 
 /-- a thread that has never touched the database -/
 def St.init : St :=
-  { n := 0, lock := false, pre := false, bad := false, poolCon := none, poolPid := false, forked := [], nextCon := 0,
+  { n := 0, lock := false, pre := false, bad := false, poolCon := none, poolPid := false, nextCon := 0,
     closed := [], fk := false, dirty := false, hasCache := false,
     cache := { conn := none, inTx := false, immediate := false, savedFk := false, pending := [] }, trace := [] }
 
